@@ -11,7 +11,16 @@ from ..propbase import PropBase, make_plan
 
 
 def total_width(cfg) -> int:
+    if cfg.get("struct"):
+        return sum(f[0] for f in cfg["struct"])
     return cfg["width"] * (cfg["elems"] or 1)
+
+
+def leaf_widths(cfg) -> list:
+    """Widths of the scalar leaves of a row, least significant first."""
+    if cfg.get("struct"):
+        return [f[0] for f in cfg["struct"]]
+    return [cfg["width"]] * (cfg["elems"] or 1)
 
 
 def en_width(cfg) -> int:
@@ -22,7 +31,9 @@ def en_width(cfg) -> int:
 
 class Scen(CompScenario):
     def build(self):
+        from amaranth import signed, unsigned
         from amaranth.lib import data
+        from amaranth.lib.memory import Memory
         from transactron.lib.storage import AsyncMemoryBank
 
         c = self.cfg
@@ -31,10 +42,27 @@ class Scen(CompScenario):
         self.en_w = en_width(c)
         self.gbits = self.tw // self.en_w
         self.full_mask = (1 << self.en_w) - 1
-        self.leaf_w = c["width"]
-        shape = data.ArrayLayout(c["width"], c["elems"]) if c["elems"] else c["width"]
+        self.leaf_ws = leaf_widths(c)
+        if c.get("struct"):
+            shape = data.StructLayout({f"f{k}": (signed(w) if sg else unsigned(w)) for k, (w, sg) in enumerate(c["struct"])})
+        else:
+            shape = data.ArrayLayout(c["width"], c["elems"]) if c["elems"] else c["width"]
+        # memory_type: not passed / the default type passed explicitly / a thin subclass of the ideal memory that
+        # records every instantiation and comes with its own initial content (the bank passes init=[])
+        self.memtype = c.get("memtype", "default")
+        self.preset = [int(v) for v in (c.get("preset") or [])][: self.depth] if self.memtype == "Recording" else []
+        self.made = made = []
+        preset = self.preset
+
+        class RecordingMemory(Memory):
+            def __init__(self, *, shape, depth, init, **kw):
+                made.append((depth, len(list(init))))
+                rows = [shape.from_bits(v) for v in preset] if isinstance(shape, data.Layout) else list(preset)
+                super().__init__(shape=shape, depth=depth, init=rows, **kw)
+
+        kw = {"default": {}, "Memory": {"memory_type": Memory}, "Recording": {"memory_type": RecordingMemory}}[self.memtype]
         self.dut = AsyncMemoryBank(shape=shape, depth=self.depth, granularity=c["gran"], read_ports=self.nr,
-                                   write_ports=self.nw)
+                                   write_ports=self.nw, **kw)
         self.top.add("dut", self.dut)
         for i in range(self.nr):
             self.caller(f"rd{i}", self.dut.read[i])
@@ -43,6 +71,7 @@ class Scen(CompScenario):
         self.wleaves = [[n for n in self.inp if n.startswith(f"wr{j}.i.data")] for j in range(self.nw)]
         self.rleaves = [[n for n in self.obs if n.startswith(f"rd{i}.o.data")] for i in range(self.nr)]
         self.mem = [0] * self.depth
+        self.mem[: len(self.preset)] = self.preset
         self.written: set = set()
         self.prev_writes: dict = {}
         self.phase_idx = -1
@@ -50,9 +79,10 @@ class Scen(CompScenario):
         return self.top
 
     def pack(self, vals, names):
-        v = 0
-        for k, n in enumerate(names):
-            v |= (vals.get(n, 0) & ((1 << self.leaf_w) - 1)) << (k * self.leaf_w)
+        v, off = 0, 0
+        for n, w in zip(names, self.leaf_ws):
+            v |= (vals.get(n, 0) & ((1 << w) - 1)) << off
+            off += w
         return v
 
     def bitmask(self, mask):
@@ -116,9 +146,9 @@ class Scen(CompScenario):
             stim[f"wr{j}.en"] = en
             stim[f"wr{j}.i.addr"] = a
             cur = self.mem[a]
-            for kk, n in enumerate(self.wleaves[j]):
-                lw = self.leaf_w
-                old = (cur >> (kk * lw)) & ((1 << lw) - 1)
+            for n, lw in zip(self.wleaves[j], self.leaf_ws):
+                old = cur & ((1 << lw) - 1)
+                cur >>= lw
                 v = (old ^ ((1 << lw) - 1)) if rng.random() < 0.3 else rng.getrandbits(lw)
                 if v == old and rng.random() < 0.8:
                     v = (old + 1) & ((1 << lw) - 1)
@@ -141,6 +171,19 @@ class Scen(CompScenario):
     # ---- oracle -----------------------------------------------------------------------------
     def check(self, cyc, stim, obs):
         mem = self.mem
+        if cyc == 0:
+            if self.memtype == "Recording":
+                # the memory the bank is built on is of the type handed to the constructor (how many instances and
+                # of which depth is the bank's business; the data oracle below judges what they return)
+                self.expect(len(self.made) >= 1, "memory-type-not-used",
+                            "AsyncMemoryBank(memory_type=T) was elaborated without instantiating T", made=len(self.made))
+                self.hit("memory_type_recording_subclass")
+            elif self.memtype == "Memory":
+                self.hit("memory_type_passed_explicitly")
+            if self.depth == 1:
+                self.hit("depth_one")
+            if self.cfg.get("struct"):
+                self.hit("struct_shape")
         writes = {}
         for j in range(self.nw):
             en, done = stim.get(f"wr{j}.en", 0), obs[f"wr{j}.done"]
@@ -178,6 +221,10 @@ class Scen(CompScenario):
                     self.hit("read_after_partial_write")
             if a not in self.written:
                 self.hit("read_never_written_row")
+                if want != 0:
+                    self.hit("read_preset_content_of_given_memory_type")
+            if i >= 3:
+                self.hit("read_by_port_ge3")
             if a in rows:
                 self.hit("two_reads_of_one_row")
             rows.append(a)
@@ -188,6 +235,8 @@ class Scen(CompScenario):
                 self.hit("partial_write")
             if a in self.prev_writes and self.prev_writes[a][0] != j:
                 self.hit("row_rewritten_by_other_port")
+            if j >= 3:
+                self.hit("write_by_port_ge3")
         if len(writes) > 1:
             self.hit("simultaneous_writes")
         self.visit((tuple(sorted((a in writes, a in self.prev_writes) for a in rows)), len(writes)),
@@ -207,7 +256,9 @@ class Prop(PropBase):
         "quick": {"runs": 1400, "selftest_runs": 4, "shrink_budget_s": 5},
         "thorough": {"runs": 28000, "selftest_runs": 32, "shrink_budget_s": 30},
     }
-    rule = ("one run = one (depth, shape, granularity, read ports, write ports) configuration driven for 60-200 cycles "
+    rule = ("one run = one (depth 1-16, shape (plain, array, struct), granularity, read ports 1-4, write ports 1-4, "
+            "memory_type: not passed / amaranth Memory passed / recording subclass of it with own initial content) "
+            "configuration driven for 60-200 cycles "
             "by a seeded phase plan (random / chase: reads aimed at the rows written now and one cycle ago / "
             "read-only / write-only / idle) over a small per-phase row pool; distinct = distinct (configuration, "
             "per executed read (row written now, row written in the previous cycle), number of writes); "
@@ -215,29 +266,49 @@ class Prop(PropBase):
     expected_cov = ["read_row_written_this_cycle", "read_row_partially_written_this_cycle",
                     "read_row_written_previous_cycle", "read_after_partial_write", "read_never_written_row",
                     "two_reads_of_one_row", "partial_write", "write_with_empty_mask", "row_rewritten_by_other_port",
-                    "simultaneous_writes"]
+                    "simultaneous_writes", "memory_type_recording_subclass", "memory_type_passed_explicitly",
+                    "read_preset_content_of_given_memory_type", "depth_one", "struct_shape", "read_by_port_ge3",
+                    "write_by_port_ge3"]
     real = ["transactron.lib.storage.AsyncMemoryBank", "amaranth.lib.memory.Memory (comb read ports)",
             "transactron.lib.adapters.AdapterTrans", "TransactionManager + scheduler", "amaranth pysim"]
-    stubs = ["cycle driver (stimulus)", "array reference model"]
+    stubs = ["cycle driver (stimulus)", "array reference model",
+             "RecordingMemory: subclass of amaranth.lib.memory.Memory given as memory_type (records instantiation, own init)"]
     assumptions = ["addresses stay below depth", "no two write calls address the same row in one cycle (premise)",
-                   "rows that were never written read as the memory's initial content (zero)"]
+                   "rows that were never written read as the initial content of the memory the bank was given "
+                   "(zero for amaranth's Memory, which the bank creates with init=[])",
+                   "memory_type: the bundled multiport memories refuse domain='comb' read ports, so the alternatives "
+                   "to the default are the ideal memory itself and subclasses of it"]
     search_space = "AsyncMemoryBank configurations x read/write call histories"
 
     def gen_config(self, rng, tier, idx):
         big = tier == "thorough"
-        depth = rng.choice([2, 3, 4, 5, 6, 7, 8, 9, 12] + ([16, 17] if big else []))
-        width = rng.choice([1, 2, 3, 4, 5, 6, 8])
-        elems = 0
-        if rng.random() < 0.2:  # ArrayLayout rows: granularity counts elements
+        depth = rng.choice([1, 2, 3, 4, 5, 6, 7, 8, 9, 12] + ([16, 17, 32, 33] if big else [16]))
+        width = rng.choice([1, 2, 3, 4, 5, 6, 8] + ([16, 32] if big else [12]))
+        elems, struct = 0, None
+        r = rng.random()
+        if r < 0.2:  # ArrayLayout rows: granularity counts elements
             width, elems = rng.choice([(1, 4), (2, 2), (2, 3), (2, 4), (3, 2), (4, 2)])
+        elif r < 0.32:  # StructLayout rows: [[field width, field signed], ...]; no granularity (the ideal memory has none)
+            struct = [[rng.choice([1, 2, 3, 5]), rng.random() < 0.4] for _ in range(rng.choice([2, 3, 4]))]
+            width = sum(f[0] for f in struct)
         gran = None
-        if rng.random() < 0.55:
+        if not struct and rng.random() < 0.55:
             n = elems or width
             divs = [g for g in range(1, n + 1) if n % g == 0]
             gran = rng.choice([1, n // 2 if n % 2 == 0 else 1, rng.choice(divs)])
+        ports = [1, 1, 2, 2, 3, 3, 4] + ([5, 6] if big else [])
+        memtype = rng.choice(["default", "default", "Memory", "Recording", "Recording", "Recording"])
+        preset = []
+        if memtype == "Recording":
+            tw = width * (elems or 1)
+            preset = [rng.getrandbits(tw) if rng.random() < 0.8 else 0 for _ in range(rng.choice([depth, rng.randint(1, depth)]))]
         cycles = rng.randint(60, 260 if big else 180)
-        return {"depth": depth, "width": width, "elems": elems, "gran": gran, "nr": rng.choice([1, 2, 3]),
-                "nw": rng.choice([1, 2, 3]), "cycles": cycles, "sched": rng.choice(["eager", "eager", "rr"]),
+        nr, nw = rng.choice(ports), rng.choice(ports)
+        if nr + nw >= 5:  # many callers to simulate: shorter runs keep the batch time
+            cycles = min(cycles, 120 if nr + nw < 7 else 90)
+        return {"depth": depth, "width": width, "elems": elems, "struct": struct, "gran": gran, "nr": nr,
+                "nw": nw, "memtype": memtype, "preset": preset, "cycles": cycles,
+                "sched": rng.choice(["eager", "eager", "rr"]),
                 "plan": make_plan(rng, cycles, ["random", "random", "chase", "chase", "readonly", "writeonly", "idle"],
                                   min_len=5, max_len=30)}
 
@@ -247,14 +318,16 @@ class Prop(PropBase):
     def features(self, cfg, viol):
         info = viol.get("info") or {}
         return {"gran_set": cfg["gran"] is not None, "gran_multi": en_width(cfg) > 1, "nw_gt1": cfg["nw"] > 1,
-                "nr_gt1": cfg["nr"] > 1, "array_shape": bool(cfg["elems"]), "written_now": info.get("written_now"),
+                "nr_gt1": cfg["nr"] > 1, "array_shape": bool(cfg["elems"]), "struct_shape": bool(cfg.get("struct")),
+                "memtype": cfg.get("memtype", "default"), "written_now": info.get("written_now"),
                 "written_prev": info.get("written_prev")}
 
     def violation_class(self, feats):
         return {k: feats.get(k) for k in ("kind", "gran_multi", "array_shape")}
 
     def cfg_signature(self, cfg):
-        return [cfg[k] for k in ("depth", "width", "elems", "gran", "nr", "nw", "sched")]
+        return [cfg[k] for k in ("depth", "width", "elems", "gran", "nr", "nw", "sched")] + \
+            [cfg.get("struct"), cfg.get("memtype", "default")]
 
     def shrink_cfg(self, cfg):
         if cfg["nr"] > 1:
@@ -265,11 +338,20 @@ class Prop(PropBase):
             c = dict(cfg)
             c["nw"] = cfg["nw"] - 1
             yield c
-        for d in (2, 3, 4, cfg["depth"] - 1):
-            if 2 <= d < cfg["depth"]:
+        for d in (1, 2, 3, 4, cfg["depth"] - 1):
+            if 1 <= d < cfg["depth"]:
                 c = dict(cfg)
                 c["depth"] = d
+                c["preset"] = (cfg.get("preset") or [])[:d]
                 yield c
+        if cfg.get("memtype", "default") == "Memory":
+            c = dict(cfg)
+            c["memtype"] = "default"
+            yield c
+        if cfg.get("struct"):
+            c = dict(cfg)
+            c["struct"], c["width"] = None, total_width(cfg)
+            yield c
         if cfg["gran"] is not None:
             c = dict(cfg)
             c["gran"] = None
